@@ -19,7 +19,7 @@ META = {
     'property': 'C03',
     'lean_props': ['DoitModel.Props.C03'],
     'level': 'proof',
-    'budget': {'quick': 30, 'thorough': 420},
+    'budget': {'quick': 25, 'thorough': 420},
     'anchors': ['doit/dependency.py::Dependency.get_status', 'doit/dependency.py::Dependency.save_success',
                 'doit/dependency.py::Dependency.remove_success', 'doit/dependency.py::Dependency.get_values',
                 'doit/dependency.py::Dependency.get_result', 'doit/dependency.py::Dependency.ignore',
